@@ -272,6 +272,7 @@ class CellObj:
                     kind = 'HASHMAPAUG' if t.kind == 'HASHMAPAUGE' else 'HASHMAP'
                     toks = [Tok(kind, n=t.n, x=t.x, y=t.y, name=t.name)]
                 r = AbsSlice(it_, s.db, toks, s.env, str(s.name or '^[...]'))
+                r.path = getattr(s, 'path', ())
                 r.discr = dict(s.discr or {})
                 r.depth_of = dict(getattr(s, 'depth_of', {}))
                 if not hasattr(it_, 'subslices'):
@@ -508,6 +509,8 @@ class AbsSlice:
         c = AbsSlice(s.it, s.db, [t.clone() for t in s.toks], s.env, s.label)
         c.discr = dict(s.discr)
         c.depth_of = dict(s.depth_of)
+        c.path = getattr(s, 'path', ())
+        c.refs_taken = getattr(s, 'refs_taken', 0)
         return c
 
     def empty(s):
@@ -710,7 +713,8 @@ class AbsSlice:
             if getattr(t, 'boolish', False) and mode == 'bool':
                 return K(bool(v))
             return K(v)
-        sym = Sym(t.name or 'anon', t, not_none=True, field=t.name)
+        # the symbol of a field is determined by where the field sits in the stream: a second parse of an equal value sees equal symbols
+        sym = Sym(t.name or 'anon', t, not_none=True, field=t.name, key=('fld', s.label, t.name, len(s.reads)))
         s.reads.append((t.name, sym))
         return sym
 
@@ -837,7 +841,7 @@ class AbsSlice:
             t = s.take({'VARU'}, 'load_coins')
             if t.l != 4:
                 raise Mismatch(f'load_coins on {t.name}: VarUInteger with a {t.l}-bit length prefix')
-            sym = Sym(t.name or 'coins', t, not_none=True, field=t.name)
+            sym = Sym(t.name or 'coins', t, not_none=True, field=t.name, key=('fld', s.label, t.name, len(s.reads)))
             s.reads.append((t.name, sym))
             return sym
         if name in ('load_var_uint', 'load_var_int'):
@@ -846,19 +850,22 @@ class AbsSlice:
             l = s.need_k(args[0], 'length bits')
             if t.kind != want or t.l != l:
                 raise Mismatch(f'{name}({l}) on field {t.name}: schema has {"VarUInteger" if t.kind == "VARU" else "VarInteger"} with a {t.l}-bit length prefix')
-            sym = Sym(t.name or 'var', t, not_none=True, field=t.name)
+            sym = Sym(t.name or 'var', t, not_none=True, field=t.name, key=('fld', s.label, t.name, len(s.reads)))
             s.reads.append((t.name, sym))
             return sym
         if name in ('load_address', 'preload_address'):
             if pre:
                 return s.copy().method(it, 'load_address', args, kw, n)
             t = s.take({'ADDR'}, 'load_address')
-            sym = Sym(t.name or 'addr', t, field=t.name)
+            sym = Sym(t.name or 'addr', t, field=t.name, key=('fld', s.label, t.name, len(s.reads)))
             s.reads.append((t.name, sym))
             return sym
         if name == 'load_ref':
             t = s.take_ref()
-            return CellObj(it, s.db, t.inner, t.env, t.name, getattr(t, 'discr', None), s.depth_of)
+            c_ = CellObj(it, s.db, t.inner, t.env, t.name, getattr(t, 'discr', None), s.depth_of)
+            c_.path = getattr(s, 'path', ()) + (getattr(s, 'refs_taken', 0),)
+            s.refs_taken = getattr(s, 'refs_taken', 0) + 1
+            return c_
         if name == 'preload_ref':
             c = s.copy()
             t = c.take_ref('preload_ref')
